@@ -28,6 +28,7 @@ pub struct Scenario {
     pub cache: usize,
     pub workers: u32,
     pub nodes: usize,
+    pub oom_ok: bool,
 }
 
 fn gen_script(rng: &mut Rng, n: u32, len: usize, nbase: usize, quant: bool) -> Vec<Op> {
@@ -60,7 +61,7 @@ pub fn gen_scenario(rng: &mut Rng, threads: usize, len: usize, quant: bool, n: u
     let nbase = 3;
     let base: Vec<Tt> = (0..nbase).map(|_| Tt::random_biased(n, rng)).collect();
     let scripts = (0..threads).map(|_| gen_script(rng, n, len, nbase, quant)).collect();
-    Scenario { n, base, scripts, cache: 1 << rng.range(0, 8), workers: 1, nodes: 1 << 14 }
+    Scenario { n, base, scripts, cache: 1 << rng.range(0, 8), workers: 1, nodes: 1 << 14, oom_ok: false }
 }
 
 /// Run the scenario once. `strategy`: None = free running. Returns the scheduler outcome.
@@ -73,9 +74,16 @@ where
 {
     let nodes = sc.nodes;
     let mut main = World::<K>::new(nodes, sc.cache, sc.workers, sc.n, label.to_string());
+    main.oom_ok = sc.oom_ok;
     for t in &sc.base {
-        let f = build_shannon::<K>(&main.mref, t);
-        main.hs.push(Entry { f, t: t.clone() });
+        match try_build_shannon::<K>(&main.mref, t) {
+            Ok(f) => main.hs.push(Entry { f, t: t.clone() }),
+            Err(_) => {
+                // the (deliberately small) store cannot even hold the operands: nothing to observe
+                ctx.count("stress_scenarios_skipped_operands_do_not_fit", 1);
+                return None;
+            }
+        }
     }
     let nthreads = sc.scripts.len();
     let sched: Option<Arc<Box<Sched>>> = strategy.map(|s| Arc::new(Sched::new(nthreads, s)));
@@ -89,8 +97,10 @@ where
             let sched = sched.clone();
             let lbl = format!("{label} thread={tid}");
             let n = sc.n;
+            let oom_ok = sc.oom_ok;
             handles.push(std::thread::spawn(move || {
                 let mut w = World::<K>::attach(mref, n, nodes, lbl);
+                w.oom_ok = oom_ok;
                 for (f, t) in base {
                     w.hs.push(Entry { f, t });
                 }
@@ -279,6 +289,13 @@ where
         sc.workers = *rng.pick(&[1u32, 2, 4, 8]);
         sc.cache = 1 << rng.range(2, 14);
         sc.nodes = if big { 1 << 21 } else { 1 << 16 };
+        if !big && r % 3 == 2 {
+            // small store: the high-water mark is reached, OxiDD's background collector runs alongside
+            // (repeatedly), operations may fail with OutOfMemory
+            sc.nodes = rng.range(150, 600);
+            sc.oom_ok = true;
+            ctx.count("stress_rounds_with_background_gc_capacity", 1);
+        }
         let label = format!("c07stress kind={} round={r} n={n} workers={} seed={} shard={}", K::NAME, sc.workers, ctx.seed, ctx.shard);
         println!("@@{{\"t\":\"case\",\"case\":{}}}", crate::ctx::json_str(&label));
         sched::delay::install(rng.next(), *rng.pick(&[4u64, 16, 64, 256]));
